@@ -595,6 +595,43 @@ theorem discharge_nothing_to_do (b : Bundle) (loc ka : Bytes) (cb : Bundle.Disch
   simp [Bundle.withRnd]
 
 
+/-- `mapM` in `Option` fails exactly when some element does -/
+theorem mapM_eq_none_iff {α β : Type} (f : α → Option β) : ∀ (l : List α), l.mapM f = none ↔ ∃ x ∈ l, f x = none
+  | [] => by simp
+  | a :: as => by
+    rw [List.mapM_cons]
+    cases hfa : f a with
+    | none => simp [hfa]
+    | some b =>
+      have ih := mapM_eq_none_iff f as
+      cases hr : as.mapM f with
+      | none =>
+        obtain ⟨x, hx, hfx⟩ := ih.mp hr
+        simp only [Option.bind_eq_bind, Option.bind_some, Option.bind_none, true_iff]
+        exact ⟨x, List.mem_cons_of_mem _ hx, hfx⟩
+      | some bs =>
+        simp only [Option.bind_eq_bind, Option.bind_some, Option.pure_def, reduceCtorEq, false_iff]
+        rintro ⟨x, hx, hfx⟩
+        rcases List.mem_cons.mp hx with rfl | hx'
+        · rw [hfa] at hfx; cases hfx
+        · have := ih.mpr ⟨x, hx', hfx⟩
+          rw [hr] at this; cases this
+
+/-- `Discharge` is all or nothing: it returns an error exactly when the work on SOME ticket in scope
+fails (ticket does not open, callback refuses, `Add` refuses the callback's caveats, encoding
+fails), and then the bundle is what it was — the discharges already minted for other tickets are
+dropped -/
+theorem dischargeWith_all_or_nothing (sc : Bundle.DischargeScope) (b : Bundle) (loc ka : Bytes) (cb : Bundle.Discharger)
+    (rnds : List Bytes) :
+    ((Bundle.dischargeWith sc b loc ka cb rnds).2 = true ↔
+      ∃ tr ∈ Bundle.withRnd (Bundle.ticketsInScope sc b.permLoc b.ts loc) rnds, Bundle.dischargeOne loc ka cb tr.1 tr.2 = none) ∧
+    ((Bundle.dischargeWith sc b loc ka cb rnds).2 = true → (Bundle.dischargeWith sc b loc ka cb rnds).1 = b) := by
+  refine ⟨?_, fun h => dischargeWith_err sc b loc ka cb rnds _ (Prod.ext rfl h)⟩
+  unfold Bundle.dischargeWith Bundle.newDischarges
+  rw [← mapM_eq_none_iff]
+  cases (Bundle.withRnd (Bundle.ticketsInScope sc b.permLoc b.ts loc) rnds).mapM
+      (fun tr => Bundle.dischargeOne loc ka cb tr.1 tr.2) <;> simp
+
 /-! ### attenuation -/
 
 theorem attenuate_err (b : Bundle) (items : List (AddItem Bytes)) (h : (b.attenuate items).2 = true) :
@@ -1567,6 +1604,98 @@ theorem inv_init (V : Bundle.Oracle) (pl : Bytes) (hdrs : List Str) : Inv macOf 
     simp only [init, List.mem_map] at hb
     obtain ⟨h, _, rfl⟩ := hb
     exact synced_parseWith pl h .default
+
+/-! ### a hit does not extend an entry's life -/
+
+theorem find?_filter_ne (k ek : Str) (h : k ≠ ek) : ∀ c : Store,
+    (c.filter fun x => !decide (x.key = ek)).find? (fun x => decide (x.key = k)) = c.find? (fun x => decide (x.key = k))
+  | [] => rfl
+  | x :: xs => by
+    have ih := find?_filter_ne k ek h xs
+    by_cases hx : x.key = ek
+    · have hk : ¬ x.key = k := fun e => h (e.symm.trans hx)
+      have hek : ¬ ek = k := fun e => h e.symm
+      simp [List.filter_cons, hx, List.find?_cons, hek, ih]
+    · by_cases hk : x.key = k
+      · have hne : ¬ k = ek := h
+        simp [List.filter_cons, hx, List.find?_cons, hk, hne]
+      · simp [List.filter_cons, hx, List.find?_cons, hk, ih]
+
+theorem get_add_ne (c : Store) (e : Entry) (k : Str) (h : e.key ≠ k) : (c.add e).get k = c.get k := by
+  unfold Store.add Store.get
+  rw [List.find?_append, find?_filter_ne k e.key (fun x => h x.symm)]
+  cases c.find? (fun x => decide (x.key = k)) with
+  | some x => rfl
+  | none => simp [h]
+
+theorem get_foldl_add_ne (k : Str) : ∀ (es : List Entry) (c : Store), (∀ e ∈ es, e.key ≠ k) →
+    (es.foldl Store.add c).get k = c.get k
+  | [], _, _ => rfl
+  | e :: es, c, h => by
+    simp only [List.foldl_cons]
+    rw [get_foldl_add_ne k es _ (fun x hx => h x (List.mem_cons_of_mem _ hx)), get_add_ne c e k (h e (by simp))]
+
+/-- an entry that is hit is left exactly as it is — in particular its expiry is not renewed: only
+queries that MISS store anything -/
+theorem hit_leaves_entry (ko : KeyOrder) (V : Bundle.Oracle) (c : Store) (now ttl : Int) (b : Bundle) (k : Str) (cs : CS)
+    (h : c.hit now k = some cs) : (verifyCached ko V c now ttl b).2.get k = c.get k := by
+  simp only [verifyCached]
+  apply get_foldl_add_ne
+  intro e he hk
+  obtain ⟨q, _, hmiss, _, hkey, _⟩ := mem_newEntries he
+  rw [← hkey, hk, h] at hmiss
+  cases hmiss
+
+theorem mem_foldl_add : ∀ (es : List Entry) (c : Store) (x : Entry), x ∈ es.foldl Store.add c → x ∈ c ∨ x ∈ es
+  | [], _, _, h => .inl h
+  | e :: es, c, x, h => by
+    simp only [List.foldl_cons] at h
+    rcases mem_foldl_add es _ x h with h1 | h1
+    · rcases List.mem_append.mp h1 with h2 | h2
+      · exact .inl (List.mem_filter.mp h2).1
+      · simp at h2; subst h2; exact .inr (by simp)
+    · exact .inr (List.mem_cons_of_mem _ h1)
+
+/-- whatever a step leaves in the store was there before, or was stored by this very step — after a
+miss — with expiry `now + ttl` -/
+theorem store_step (P : Params) (now : Int) (s : Sys) (op : Op) :
+    ∀ e ∈ (step P now s op).1.store, e ∈ s.store ∨ e.expiry = now + P.ttl := by
+  intro e he
+  cases op with
+  | verify i mode =>
+    cases mode with
+    | direct => exact .inl he
+    | cached =>
+      simp only [step, Sys.set, verifyCached] at he
+      rcases mem_foldl_add _ _ e he with h1 | h1
+      · exact .inl h1
+      · obtain ⟨_, _, _, _, _, hexp⟩ := mem_newEntries h1
+        exact .inr hexp
+  | validate i rs => exact .inl he
+  | attenuate i items => exact .inl he
+  | discharge i loc ka cb rnds => exact .inl he
+  | filter i f => exact .inl he
+  | header i => exact .inl he
+  | tick => exact .inl he
+  | evict k => exact .inl (List.mem_filter.mp he).1
+
+/-- the state after a history -/
+def runSys (P : Params) : List (Int × Op) → Sys → Sys
+  | [], s => s
+  | (now, op) :: rest, s => runSys P rest (step P now s op).1
+
+/-- every entry in the store after a history was stored at one of the history's instants `t`, and
+expires at `t + ttl`: nothing — no hit in between — ever moves an expiry -/
+theorem store_run (P : Params) : ∀ (hist : List (Int × Op)) (s : Sys),
+    ∀ e ∈ (runSys P hist s).store, e ∈ s.store ∨ ∃ t op, (t, op) ∈ hist ∧ e.expiry = t + P.ttl
+  | [], _, e, he => .inl he
+  | (now, op) :: rest, s, e, he => by
+    simp only [runSys] at he
+    rcases store_run P rest _ e he with h1 | ⟨t, op', hm, hexp⟩
+    · rcases store_step P now s op e h1 with h2 | h2
+      · exact .inl h2
+      · exact .inr ⟨now, op, by simp, h2⟩
+    · exact .inr ⟨t, op', List.mem_cons_of_mem _ hm, hexp⟩
 
 /-! ### isolation -/
 
